@@ -179,7 +179,7 @@ class TableChecker:
             return "disjoint", []
         return "overlap", conds
 
-    def check_path(self, pi, r, dump, hyps, only=None):
+    def check_path(self, pi, r, dump, hyps, only=None, sliced=False):
         """compare one explored path (PathResult r with its dump or exception) against the table"""
         ses, fn = self.ses, self.function
         P_when = [z3.simplify(c).sexpr() for c in fork_conditions(r.path)]
@@ -224,6 +224,8 @@ class TableChecker:
                 diffs = list(_entries_differ(dump[loc], spec[loc]))
                 ok_all = True
                 for sub, a, b in diffs:
+                    if isinstance(a, str) and isinstance(b, str) and sub.endswith(".len"):
+                        a, b = {"sym": "int", "t": a}, {"sym": "int", "t": b}  # symbolic lengths are stored as bare terms
                     if not (isinstance(a, dict) and isinstance(b, dict) and "t" in a and "t" in b and a.get("sym") == b.get("sym")):
                         ses.decided(oid + sub, False, function=fn, replay=self.replay, kind="table",
                                     detail={"problem": "structure or concrete value differs", "got": a, "spec": b})
@@ -239,7 +241,7 @@ class TableChecker:
                         continue
                     goal = _same_value(ta, tb)
                     ses.prove(oid + sub, list(hyps) + list(conds), goal, function=fn, kind="table", replay=self.replay,
-                              detail={"got": a["t"][:400], "spec": b["t"][:400]})
+                              detail={"got": a["t"][:400], "spec": b["t"][:400]}, sliced=sliced)
             if kind == "same":
                 break
         if matched == 0:
